@@ -32,7 +32,9 @@ CONSTANTS
     Cap, Pol,     \* dispatch queue: capacity, "block" | "oldest" | "latest"
     InitReducers, \* Seq of reducer ids registered by the builder
     InitMws,      \* Seq of middleware ids registered by the builder
-    RedScript,    \* [reducer id -> [kind -> [op : {"D","K"}, eff : EffectDesc]]]
+    RedScript,    \* [reducer id -> [kind -> [op : {"D","K","G"}, eff : EffectDesc]]]; "G": answers Dispatch, but
+                  \* the scripted reducer raises the signal "in" when it is called and returns only once
+                  \* the signal "go" is up (a reducer that is held up by something outside the store)
     MwScript,     \* [mw id -> [phase -> [kind -> "C"|"D"|"B"|"E"|"*"]]], "*" = any of MwVerdicts
     MwVerdicts,   \* the answers a "*" entry may give
     MwRemove,     \* [mw id -> [kind -> "none" | "first" | "all"]]  (before_effect)
@@ -383,13 +385,14 @@ MRedBegin(w) ==              \* store_impl.rs:331-334
 MRedCall(w) ==
     LET i == L(w).i IN
     IF i > Len(w.reducers) THEN Goto(w, "red.end")
-    ELSE Park(w, "red.ret", "cb", Cb(w, "reduce", w.reducers[i], L(w).st, L(w).a, <<>>))
+    ELSE Park([w EXCEPT !.sig = IF RedScript[w.reducers[i]][Kind[L(w).a]].op = "G" THEN @ \cup {"in"} ELSE @],
+              "red.ret", "cb", Cb(w, "reduce", w.reducers[i], L(w).st, L(w).a, <<>>))
 
 MRedRet(w) ==                \* store_impl.rs:335-351: thread the state, collect the effect, last reducer decides
     LET r == w.reducers[L(w).i]  a == L(w).a  sc == RedScript[r][Kind[a]] IN
     Goto([w EXCEPT !.loc[w.t].st = Append(@, <<r, a>>),
                    !.loc[w.t].effs = IF sc.eff.k = "none" THEN @ ELSE Append(@, sc.eff),
-                   !.loc[w.t].needD = (sc.op = "D"),
+                   !.loc[w.t].needD = (sc.op \in {"D", "G"}),
                    !.h.chain[a] = Append(@, r),
                    !.h.effRet = IF sc.eff.k = "none" THEN @ ELSE @ + 1,
                    !.loc[w.t].i = @ + 1], "red.call")
@@ -737,6 +740,7 @@ CanLeave(t) ==
       [] p \in {"iter.end", "iter.drop", "sub.reg"} -> lk["subs"] = "-"
       [] p = "ctxdrop" -> lk[CtxLock(l.us)] = "-"
       [] p = "chjoin" -> pc[ChName(l.us)] = "exited"
+      [] p = "red.ret" -> RedScript[reducers[l.i]][Kind[l.a]].op = "G" => "go" \in sig
       [] p = "recv" -> chan["D"].q # <<>> \/ ~chan["D"].alive
       [] p = "snap" -> lk["subs"] = "-"
       [] p = "chfwd" -> lk[CtxLock(l.snap[l.k])] = "-"
